@@ -32,7 +32,7 @@ Fixpoint skip_ws (s : bytes) : bytes :=
 Definition hd_isspace (s : bytes) : bool :=
   match s with c :: _ => isspace c | [] => false end.        (* *e with e at the terminating NUL: not a space *)
 
-(* ------------------------------------------------------------------ strtol(msg, &e, 10) assigned to an int *)
+(* ------------------------------------------------------------------ strtol(msg, &e, 10) and the range check on the channel id *)
 Definition LONG_MAX : Z := 9223372036854775807%Z.
 Definition LONG_MIN : Z := (-9223372036854775808)%Z.
 
@@ -42,8 +42,10 @@ Fixpoint dec_acc (acc : Z) (ds : bytes) : Z :=            (* magnitude, saturati
   | d :: r => dec_acc (Z.min (acc * 10 + (Z.of_N d - 48)) 9223372036854775808%Z) r
   end.
 
-Definition to_int32 (z : Z) : Z :=
-  let m := (z mod 4294967296)%Z in if (m <? 2147483648)%Z then m else (m - 4294967296)%Z.
+(* "i = (errno == ERANGE || parsedId < 0 || parsedId > INT_MAX) ? -1 : static_cast<int>(parsedId)":
+   a number that does not fit an int names no channel (ERANGE values are LONG_MIN / LONG_MAX, both out of range) *)
+Definition INT_MAX : Z := 2147483647%Z.
+Definition chan_of (v : Z) : Z := if (v <? 0)%Z || (INT_MAX <? v)%Z then (-1)%Z else v.
 
 Definition is_neg (s1 : bytes) : bool := match s1 with c :: _ => c =? 45 | [] => false end.
 Definition sign_rest (s1 : bytes) : bytes :=                      (* optional '-' / '+' *)
@@ -59,7 +61,7 @@ Definition strtol (s : bytes) : Z * bytes :=
   | [] => (0%Z, s)                                        (* no conversion: endptr = nptr *)
   | _ => let m := dec_acc 0%Z ds in
          let v := if is_neg s1 then Z.max (- m)%Z LONG_MIN else Z.min m LONG_MAX in
-         (to_int32 v, e)
+         (chan_of v, e)
   end.
 
 (* ------------------------------------------------------------------ request table of one helper process *)
